@@ -1,0 +1,31 @@
+//go:build verif
+
+package core
+
+import (
+	"github.com/glebziz/fs_db/internal/model"
+	"github.com/glebziz/fs_db/internal/model/core"
+)
+
+// VerifVersions returns, per transaction id and key, the versions currently held
+// (verification builds only). The all-store is reported under the id "all".
+func (u *UseCase) VerifVersions() (res map[string]map[string][]model.File, mirrorOK bool) {
+	res = make(map[string]map[string][]model.File)
+	mirrorOK = true
+
+	for id, tx := range u.txStore.VerifAll() {
+		tx.RLock()
+		vs, ok := tx.VerifVersions()
+		tx.RUnlock()
+		res[id] = vs
+		mirrorOK = mirrorOK && ok
+	}
+
+	u.allStore.RLock()
+	res["all"], _ = u.allStore.VerifVersions()
+	u.allStore.RUnlock()
+
+	return res, mirrorOK
+}
+
+var _ = core.Transaction{}
